@@ -53,15 +53,16 @@ type report struct {
 	Degraded []string          `json:"degraded"`
 }
 type pkgRp struct {
-	Files      int      `json:"files"`
-	MapRanges  int      `json:"map_ranges"`
-	GoStmts    int      `json:"go_stmts"`
-	ChanOps    int      `json:"chan_ops"`
-	MapAccess  int      `json:"map_accesses"`
-	Selects    int      `json:"selects"`
-	TimeSwaps  int      `json:"time_import_swaps"`
-	SyncSwaps  int      `json:"sync_import_swaps"`
-	TypeErrors []string `json:"type_errors,omitempty"`
+	Files       int      `json:"files"`
+	MapRanges   int      `json:"map_ranges"`
+	GoStmts     int      `json:"go_stmts"`
+	ChanOps     int      `json:"chan_ops"`
+	MapAccess   int      `json:"map_accesses"`
+	FieldAccess int      `json:"field_accesses"`
+	Selects     int      `json:"selects"`
+	TimeSwaps   int      `json:"time_import_swaps"`
+	SyncSwaps   int      `json:"sync_import_swaps"`
+	TypeErrors  []string `json:"type_errors,omitempty"`
 }
 
 func main() {
@@ -191,17 +192,18 @@ func must(err error) {
 }
 
 type fileCtx struct {
-	fset     *token.FileSet
-	file     *ast.File
-	info     *types.Info
-	pkg      *types.Package
-	generics bool
-	rp       *pkgRp
-	needVmem bool
+	fset      *token.FileSet
+	file      *ast.File
+	info      *types.Info
+	pkg       *types.Package
+	generics  bool
+	rp        *pkgRp
+	needVmem  bool
 	needSched bool
 	needVchan bool
-	tmp      int
-	timeName string // local name of the "time" import ("" if absent)
+	tmp       int
+	timeName  string // local name of the "time" import ("" if absent)
+	rel       string // package directory relative to the repo
 }
 
 func instrumentDir(dir, outDir string, overlay map[string]string, generics bool) *pkgRp {
@@ -230,9 +232,10 @@ func instrumentDir(dir, outDir string, overlay map[string]string, generics bool)
 	}
 	rp.Files = len(files)
 	info := &types.Info{
-		Types: map[ast.Expr]types.TypeAndValue{},
-		Defs:  map[*ast.Ident]types.Object{},
-		Uses:  map[*ast.Ident]types.Object{},
+		Types:      map[ast.Expr]types.TypeAndValue{},
+		Defs:       map[*ast.Ident]types.Object{},
+		Uses:       map[*ast.Ident]types.Object{},
+		Selections: map[*ast.SelectorExpr]*types.Selection{},
 	}
 	conf := types.Config{
 		Importer: newImporter(fset),
@@ -249,7 +252,8 @@ func instrumentDir(dir, outDir string, overlay map[string]string, generics bool)
 	os.Chdir(old)
 
 	for i, f := range files {
-		fc := &fileCtx{fset: fset, file: f, info: info, pkg: pkg, generics: generics, rp: rp}
+		rel, _ := filepath.Rel(*repo, dir)
+		fc := &fileCtx{fset: fset, file: f, info: info, pkg: pkg, generics: generics, rp: rp, rel: rel}
 		fc.rewrite()
 		if !generics && i == 0 {
 			// a file added to a module-cache directory through the overlay is
@@ -348,6 +352,9 @@ func (fc *fileCtx) walkBlocks() {
 	}
 	if *level >= 3 && fc.generics {
 		fc.rewriteMapAccesses()
+		if fc.wantFields(fc.rel) {
+			fc.rewriteFieldAccesses()
+		}
 	}
 }
 
